@@ -1,5 +1,5 @@
 #!/usr/bin/env python3
-"""Entry point:  ./check.py <Cxx> [--tier quick|thorough] [--replay file]   |   ./check.py --setup"""
+"""Entry point:  ./check.py <Cxx> [--tier quick|thorough] [--seed n] [--replay file]   |   ./check.py --setup"""
 import argparse
 import importlib
 import json
@@ -59,6 +59,7 @@ def main():
     ap.add_argument("prop", nargs="?")
     ap.add_argument("--tier", default=os.environ.get("VERIF_TIER", "quick"))
     ap.add_argument("--replay")
+    ap.add_argument("--seed", type=int, default=None, help="PRNG seed (default: $VERIF_SEED or 0)")
     ap.add_argument("--setup", action="store_true")
     a = ap.parse_args()
     if a.setup:
@@ -67,7 +68,7 @@ def main():
         ap.error("property id required")
     if a.replay:
         sys.exit(replay(a.prop, a.replay))
-    seed = int(os.environ.get("VERIF_SEED", "0") or 0)
+    seed = a.seed if a.seed is not None else int(os.environ.get("VERIF_SEED", "0") or 0)
     tier = a.tier if a.tier in ("quick", "thorough") else "quick"
     mod = importlib.import_module(f"vf.{a.prop.lower()}")
     ctx = core.Ctx(a.prop, tier, seed)
